@@ -106,6 +106,7 @@ template <size_t N> struct ReadExplorer {
          c = execute_keep_arity(hist, o, ok, verbose, ar);
          ++g_trans; ++g_chunkings;
          std::string key = std::to_string(st.first) + "," + std::to_string(st.second) + "|" + ops_text({o});
+         vf::outcome("ReadBuffer<" + std::to_string(N) + "> " + key + (ok && c.first != size_t(-1) ? " -> (" + std::to_string(c.first) + "," + std::to_string(c.second) + ")" : " refused"));
          if (ok && c.first != size_t(-1)) {
             if (pass == 0) {
                succ[key] = c;
